@@ -520,8 +520,12 @@ def canon_items_path(T, w, root, key):
     if isinstance(cur, dict):
       j = w.dkey_json(k)
     out.append(j)
+    # Walk the DATA (not the view: `view[Literal]` short-circuits to the literal's value).  A Literal object
+    # stored as a dict key by an earlier set is an ordinary hashable key for `dict.__getitem__`, so the walk
+    # goes through it and the elements after it are still recognised as dict keys (wp-C18F: `cur` used to be
+    # dropped at a Literal, and an Index met as a dict key BELOW a Literal key was reported as a sequence index).
     try:
-      cur = cur[k] if not isinstance(k, T.Literal) else None
+      cur = cur[k] if isinstance(cur, (dict, list, tuple)) else None
     except Exception:  # pylint: disable=broad-except
       cur = None
   return out
